@@ -334,8 +334,8 @@ def r10_error_owns_its_text(ctx, facts, cfg):
 
 def r11_error_text_in_place(ctx, facts, cfg):
     """R11: 'written with an explanatory error text in place of its message': every handler of the formatting try in
-    _populate_formatted_log_message empties the (possibly half-written) message, appends the error text to it and reports the same text,
-    in that order, on every path."""
+    _populate_formatted_log_message empties the (possibly half-written) message before it appends the error text, and appends and
+    reports the same text on every path."""
     f = facts.need(BW + "_populate_formatted_log_message", cfg)[0]
     g = f.g
     tries = [x for x in f.walk() if x["k"] == "CXXTryStmt" and any(is_call(y, r"^fmtquill::(v\d+::)?vformat_to") for y in walk(x.get("tryblock")))]
@@ -360,8 +360,8 @@ def r11_error_text_in_place(ctx, facts, cfg):
         cp, ap, rp = npos(f, clr), npos(f, app), npos(f, rep)
         entry = g.positions(body) or cp
         ok = len(clr) == 1 and len(app) == 1 and len(rep) == 1 and len(errv) == 1 and None not in errv and \
-            not g.exists_path(ap, cp) and not g.exists_path(cp, [g.exit_node], avoid_nodes=ap) and not g.exists_path(ap, [g.exit_node], avoid_nodes=rp)
+            not g.exists_path(ap, cp) and not g.exists_path(cp, [g.exit_node], avoid_nodes=ap) and not g.exists_path(cp, [g.exit_node], avoid_nodes=rp)
         ctx.ob("C10.R11", "_populate_formatted_log_message:handler(%s):error-text-replaces-message" % h.get("caught"), ok,
-               "the handler clears the message, appends the error text and reports that same text, in this order, on every path "
+               "the handler clears the message before it appends the error text, and appends and reports that same text on every path "
                "(clear %d, append %d, report %d)" % (len(clr), len(app), len(rep)), fn=f, loc=(body or {}).get("loc", ""))
     ctx.floor("C10.R11", "handlers of the formatting try", n, 2)
